@@ -105,29 +105,45 @@ structure Cfg where
   `revertTask(block.Number-2)`: the head is compared with the source before it is reverted
   (`proposed-fixes/C06-storetask-confirm-head-before-revert.diff`, commit 508f9af) -/
   confirmHead : Bool
+  /-- `revertTask` runs `SanityCheckNewHeight` on the answer before it compares hashes and breaks
+  when the check fails (`proposed-fixes/C06-reverttask-verify-answer.diff`) -/
+  verifyAns : Bool
+  /-- `isReverting` does not act on a differing `BlockHeaderLatest` answer alone: it fetches that
+  block, verifies it and requires it to carry the announced number and hash
+  (`proposed-fixes/C06-isreverting-confirm-latest-header.diff`) -/
+  confirmLatest : Bool
 deriving DecidableEq, Repr, Inhabited
 
 /-- the code at the pinned commit, before any of the proposed fixes (the negation witnesses in
 `Props.lean` are about this variant and stay valid when `asFound` moves on) -/
-def Cfg.original : Cfg := ⟨false, false, false⟩
+def Cfg.original : Cfg := ⟨false, false, false, false, false⟩
 
 /-- THE SWITCH: the variant /repo currently contains (used by the driver, i.e. by the
 correspondence check, and by the `…_asFound` theorems in Props.lean). A field is `true` when the
-corresponding fix is in /repo: `zeroGuard` = 4de714c, `numCheck` = 6c0318d, `confirmHead` = 508f9af.
+corresponding fix is in /repo: `zeroGuard` = 4de714c, `numCheck` = 6c0318d, `confirmHead` = 508f9af;
+`verifyAns` and `confirmLatest` are the two fixes proposed after the review (not applied yet).
 If one of these commits is reverted, set its field back to `false` (the check then reports the
 finding again as a violation, and `run_accepted_asFound` / `convergence_sequential_asFound` stop
 compiling until they are weakened). -/
-def Cfg.asFound : Cfg := ⟨true, true, true⟩
+def Cfg.asFound : Cfg := ⟨true, true, true, false, false⟩
 
 /-- all proposed fixes applied -/
-def Cfg.fixed : Cfg := ⟨true, true, true⟩
+def Cfg.fixed : Cfg := ⟨true, true, true, true, true⟩
 
 /-- `lastPossiblyValidHeight` chosen by `storeTask` after `ErrParentDoesNotMatchHead` for block `b` -/
 def mismatchLpv (cfg : Cfg) (b : Blk) : Nat := sub64 b.num (if cfg.confirmHead then 1 else 2)
 
+/-- the confirming fetch returned a verified block with the announced number and hash -/
+def confirmed (confirm : Option Blk) (rh : Hdr) : Bool :=
+  match confirm with
+  | some b => b.ok && b.num == rh.num && b.hash == rh.hash
+  | none => false
+
 /-- `isReverting(nextHeight)` given the local chain and the answer of `BlockHeaderLatest`
-(`none` = the request failed). Returns `some lastPossiblyValidHeight` iff `isReorg`. -/
-def isReverting (cfg : Cfg) (c : Chain) (next : Nat) (latest : Option Hdr) : Option Nat :=
+(`none` = the request failed). Returns `some lastPossiblyValidHeight` iff `isReorg`. `confirm` =
+answer to the confirming `BlockByNumber(remoteHeight)` (only consulted with `cfg.confirmLatest`). -/
+def isReverting (cfg : Cfg) (c : Chain) (next : Nat) (latest : Option Hdr) (confirm : Option Blk := none) :
+    Option Nat :=
   match c with
   | [] => none                                   -- Height() fails
   | hd :: _ =>
@@ -141,6 +157,7 @@ def isReverting (cfg : Cfg) (c : Chain) (next : Nat) (latest : Option Hdr) : Opt
       | none => none
       | some lh =>
         if rh.hash == lh.hash then none
+        else if cfg.confirmLatest && !confirmed confirm rh then none  -- announced block not fetched/verified
         else if cfg.zeroGuard && rh.num == 0 then some 0
         else some (sub64 rh.num 1)
 
@@ -191,6 +208,7 @@ def revertIter (cfg : Cfg) (lpv : Nat) (hd : Blk) (ans : Option Blk) : IterOut :
     | none => .brk
     | some rb =>
       if cfg.numCheck && rb.num != hd.num then .brk
+      else if cfg.verifyAns && !rb.ok then .brk
       else if rb.hash == hd.hash then .brk
       else .revert (rb.parent != hd.parent)
   else .revert true
@@ -202,14 +220,30 @@ structure Evidence where
   /-- `(h, b)`: the source answered `BlockByNumber(h)` with `b` -/
   blocks : List (Nat × Blk)
   latests : List Hdr
+  /-- the same, restricted to the answers given SINCE THE LAST STORED BLOCK (hence after every block
+  now on the chain was stored) -/
+  rblocks : List (Nat × Blk)
+  rlatests : List Hdr
 deriving Repr, Inhabited
+
+def Evidence.empty : Evidence := ⟨[], [], [], []⟩
+
+def Evidence.addBlock (ev : Evidence) (x : Nat × Blk) : Evidence :=
+  { ev with blocks := x :: ev.blocks, rblocks := x :: ev.rblocks }
+
+def Evidence.addLatest (ev : Evidence) (x : Hdr) : Evidence :=
+  { ev with latests := x :: ev.latests, rlatests := x :: ev.rlatests }
+
+/-- a block was stored: the answers so far are older than the new head -/
+def Evidence.clearRecent (ev : Evidence) : Evidence := { ev with rblocks := [], rlatests := [] }
 
 inductive Ev where
   /-- the block fetched for height `req` reaches verifierTask/storeTask; `cancelled` = the stream context is done when
   storeTask starts -/
   | deliver (req : Nat) (b : Blk) (cancelled : Bool)
-  /-- fetch of `next` failed, `isReverting(next)` ran with this `BlockHeaderLatest` answer -/
-  | reorgDetected (next : Nat) (latest : Option Hdr)
+  /-- fetch of `next` failed, `isReverting(next)` ran with this `BlockHeaderLatest` answer (and, with
+  `cfg.confirmLatest`, this answer to the confirming `BlockByNumber(latest.num)`) -/
+  | reorgDetected (next : Nat) (latest : Option Hdr) (confirm : Option Blk)
   /-- one iteration of the running revertTask; `ans` = answer to `BlockByNumber(head.num)` -/
   | iter (ans : Option Blk) (revOk : Bool)
   /-- `Run` was cancelled and has returned (all callbacks finished), and a NEW `Synchronizer` is
@@ -226,28 +260,32 @@ structure Impl where
   ev : Evidence
 deriving Repr, Inhabited
 
-def Impl.init (c : Chain) : Impl := ⟨⟨c, none⟩, none, ⟨[], []⟩⟩
+def Impl.init (c : Chain) : Impl := ⟨⟨c, none⟩, none, Evidence.empty⟩
 
 def Impl.step (cfg : Cfg) (s : Impl) : Ev → Impl × List Obs
   | .deliver req b cancelled =>
     match s.task with
     | some _ => (s, [])                      -- the callback chain is busy: not enabled
     | none =>
-      let s := { s with ev := { s.ev with blocks := (req, b) :: s.ev.blocks } }
+      let s := { s with ev := s.ev.addBlock (req, b) }
       if !b.ok then (s, [])                  -- verifierTask: sanity check failed, reset
       else if cancelled then (s, [])         -- storeTask: ctx.Done
       else match succession s.node.chain b with
-        | .stored => let (n, o) := onStored s.node b; ({ s with node := n }, o)
+        | .stored => let (n, o) := onStored s.node b; ({ s with node := n, ev := s.ev.clearRecent }, o)
         | .badNumber => (s, [])              -- other store error: reset
         | .parentMismatch => ({ s with task := some (mismatchLpv cfg b) }, [])
-  | .reorgDetected next latest =>
+  | .reorgDetected next latest confirm =>
     match s.task with
     | some _ => (s, [])
     | none =>
       let s := match latest with
-        | some l => { s with ev := { s.ev with latests := l :: s.ev.latests } }
+        | some l => { s with ev := s.ev.addLatest l }
         | none => s
-      match isReverting cfg s.node.chain next latest with
+      -- the confirming fetch is only made when the header differs; recording it always is harmless
+      let s := match latest, confirm with
+        | some l, some b => if cfg.confirmLatest then { s with ev := s.ev.addBlock (l.num, b) } else s
+        | _, _ => s
+      match isReverting cfg s.node.chain next latest confirm with
       | some lpv => ({ s with task := some lpv }, [])
       | none => (s, [])
   | .iter ans revOk =>
@@ -260,7 +298,7 @@ def Impl.step (cfg : Cfg) (s : Impl) : Ev → Impl × List Obs
         -- the answer is only requested (and becomes evidence) when hd.num ≤ lpv
         let s := if hd.num ≤ lpv then
             (match ans with
-             | some rb => { s with ev := { s.ev with blocks := (hd.num, rb) :: s.ev.blocks } }
+             | some rb => { s with ev := s.ev.addBlock (hd.num, rb) }
              | none => s)
           else s
         match revertIter cfg lpv hd ans with
@@ -283,6 +321,9 @@ def Impl.run (cfg : Cfg) (s : Impl) : List Ev → Impl × List Obs
 /-! ### Canonical sequential schedule against a stable honest source -/
 
 def srcLatest (src : Chain) : Option Hdr := src.head?.map (fun b => ⟨b.num, b.hash⟩)
+
+/-- the source's answer to the confirming `BlockByNumber(latest.Number)`: its head block -/
+def srcConfirm (src : Chain) : Option Blk := src.head?
 
 /-- `revertTask(lpv)` run to completion against a stable source (all requests succeed, every
 `RevertHead` succeeds). Structural in the local chain. -/
@@ -309,7 +350,7 @@ def round (cfg : Cfg) (src : Chain) (n : Node) : Node × List Obs :=
       | .badNumber => (n, [])
       | .parentMismatch => revertTask cfg src (mismatchLpv cfg b) n.chain n.reorg
   | none =>
-    match isReverting cfg n.chain h (srcLatest src) with
+    match isReverting cfg n.chain h (srcLatest src) (srcConfirm src) with
     | some lpv => revertTask cfg src lpv n.chain n.reorg
     | none => (n, [])
 
@@ -322,18 +363,41 @@ def runRounds (cfg : Cfg) (src : Chain) : Nat → Node → Node × List Obs
 
 /-! ### Evidence-based acceptor for observed traces -/
 
-/-- The source has shown that it does not hold `hd` (as head of local chain `c`) any more:
-* it answered a request for that height with a block of that height and another hash, or
-* (only when `strict = false`) it served a verified block `hd.num + 1` whose parent is not `hd`, or
-* it reported a latest header at or below `hd` that differs from the local block there.
-The second kind of answer may have been fetched BEFORE `hd` was stored (parallel fetchers), the
-other two are always requested after; `strict = true` is the relation the code satisfies once
-`storeTask` confirms the head before reverting it. -/
-def justified (strict : Bool) (ev : Evidence) (c : Chain) (hd : Blk) : Bool :=
-  ev.blocks.any (fun rb => rb.1 == hd.num && rb.2.num == hd.num && rb.2.hash != hd.hash)
-  || (!strict && ev.blocks.any (fun rb => rb.2.ok && rb.2.num == hd.num + 1 && rb.2.parent != hd.hash))
-  || ev.latests.any (fun l => decide (l.num ≤ hd.num) &&
-        (match byNumber? c l.num with | some lb => lb.hash != l.hash | none => false))
+/-- Which relation between reverts and the source's answers is demanded. -/
+inductive Mode where
+  /-- (original code) ANY answer ever given counts: a different block for that height, a verified
+  successor with another parent, a latest header at/below that differs -/
+  | lenient
+  /-- (code with `confirmHead`) only answers given since the last stored block count — i.e. answers
+  computed after the reverted head was stored — and no successor blocks; a bare latest header and an
+  unverified block still count -/
+  | fresh
+  /-- (code with `verifyAns` and `confirmLatest` too) only VERIFIED blocks given since the last
+  stored block count: a verified block numbered `r ≤ hd.num`, served for height `r`, whose hash
+  differs from the node's block `r` -/
+  | verified
+deriving DecidableEq, Repr, Inhabited
+
+def Cfg.mode (cfg : Cfg) : Mode :=
+  if !cfg.confirmHead then .lenient
+  else if cfg.verifyAns && cfg.confirmLatest then .verified
+  else .fresh
+
+/-- The source has shown that it does not hold `hd` (head of the local chain `c`) any more. -/
+def justified (m : Mode) (ev : Evidence) (c : Chain) (hd : Blk) : Bool :=
+  match m with
+  | .lenient =>
+    ev.blocks.any (fun rb => rb.1 == hd.num && rb.2.num == hd.num && rb.2.hash != hd.hash)
+    || ev.blocks.any (fun rb => rb.2.ok && rb.2.num == hd.num + 1 && rb.2.parent != hd.hash)
+    || ev.latests.any (fun l => decide (l.num ≤ hd.num) &&
+          (match byNumber? c l.num with | some lb => lb.hash != l.hash | none => false))
+  | .fresh =>
+    ev.rblocks.any (fun rb => rb.1 == hd.num && rb.2.num == hd.num && rb.2.hash != hd.hash)
+    || ev.rlatests.any (fun l => decide (l.num ≤ hd.num) &&
+          (match byNumber? c l.num with | some lb => lb.hash != l.hash | none => false))
+  | .verified =>
+    ev.rblocks.any (fun rb => rb.2.ok && rb.1 == rb.2.num && decide (rb.2.num ≤ hd.num) &&
+          (match byNumber? c rb.2.num with | some lb => lb.hash != rb.2.hash | none => false))
 
 inductive SEv where
   /-- the source answered `BlockByNumber(req)` with this block -/
@@ -355,7 +419,7 @@ structure Spec where
   owed : List Obs
 deriving Repr, Inhabited
 
-def Spec.init (c : Chain) : Spec := ⟨c, ⟨[], []⟩, [], []⟩
+def Spec.init (c : Chain) : Spec := ⟨c, Evidence.empty, [], []⟩
 
 /-- last element of `l`, or `d` when `l` is empty -/
 def lastD : List Blk → Blk → Blk
@@ -386,9 +450,9 @@ def Reject.name : Reject → String
   | .notifUnexpected => "notification-unexpected"
   | .notifOwedAtShutdown => "notification-owed-at-shutdown"
 
-def Spec.step (strict : Bool) (s : Spec) : SEv → Except Reject Spec
-  | .served req b => .ok { s with ev := { s.ev with blocks := (req, b) :: s.ev.blocks } }
-  | .latest h => .ok { s with ev := { s.ev with latests := h :: s.ev.latests } }
+def Spec.step (m : Mode) (s : Spec) : SEv → Except Reject Spec
+  | .served req b => .ok { s with ev := s.ev.addBlock (req, b) }
+  | .latest h => .ok { s with ev := s.ev.addLatest h }
   | .restart =>
     -- nothing may be left unsent when `Run` returns; reverts not yet announced are forgotten
     if s.owed.isEmpty then .ok { s with pending := [] } else .error .notifOwedAtShutdown
@@ -403,25 +467,26 @@ def Spec.step (strict : Bool) (s : Spec) : SEv → Except Reject Spec
                                   && succession s.chain rb.2 == .stored) with
       | none => .error .storedNotSuccessor
       | some rb =>
-        .ok { s with chain := rb.2 :: s.chain, pending := [],
+        .ok { s with chain := rb.2 :: s.chain, pending := [], ev := s.ev.clearRecent,
                      owed := s.owed ++ reorgObs (rangeOf s.pending) ++ [Obs.newHead num hash] }
   | .obs (.reverted num hash) =>
     match s.chain with
     | [] => .error .revertNotHead
     | hd :: tl =>
       if hd.num != num || hd.hash != hash then .error .revertNotHead
-      else if !justified strict s.ev s.chain hd then .error .revertNotJustified
+      else if !justified m s.ev s.chain hd then .error .revertNotJustified
       else .ok { s with chain := tl, pending := hd :: s.pending }
-  | .obs (.revertFailed _ _) => .error .revertFailed
+  -- a failed `RevertHead` changes nothing (what the code announces afterwards is checked by `owed`)
+  | .obs (.revertFailed _ _) => .ok s
   | .obs o =>
     match s.owed with
     | [] => .error .notifUnexpected
     | e :: rest => if e == o then .ok { s with owed := rest } else .error .notifUnexpected
 
-def Spec.run (strict : Bool) (s : Spec) : List SEv → Except Reject Spec
+def Spec.run (m : Mode) (s : Spec) : List SEv → Except Reject Spec
   | [] => .ok s
-  | e :: es => match s.step strict e with
+  | e :: es => match s.step m e with
     | .error r => .error r
-    | .ok s' => Spec.run strict s' es
+    | .ok s' => Spec.run m s' es
 
 end Juno.C06
